@@ -11,6 +11,7 @@ namespace {
 
 struct Case {
     std::vector<uint8_t> bytes;
+    int                  width{1};
     int                  twins{0}; // 1: numeric group values come from the table of numbers that share a 64-bit pattern across kinds
 };
 
@@ -117,12 +118,31 @@ Member gen_other(Entropy &e, const std::string &key) {
     return m;
 }
 
-void put_member(Value<char> &o, const Member &m) {
-    Value<char> &v = o[m.key.c_str()];
+template <typename Char_T>
+String<Char_T> wstr(const std::string &s) {
+    jm::Units u;
+    for (unsigned char c : s) {
+        u.push_back(c);
+    }
+    jm::Buf<Char_T> b(u);
+    return String<Char_T>{b.cp(), SizeT(b.n)};
+}
+template <typename Char_T>
+std::string narrow(const Char_T *p, SizeT n) {
+    std::string o;
+    for (SizeT i = 0; i < n; ++i) {
+        const uint32_t u = jm::unit_of(p[i]);
+        o.push_back(u < 0x80 ? char(u) : '?');
+    }
+    return o;
+}
+template <typename Char_T>
+void put_member(Value<Char_T> &o, const Member &m) {
+    Value<Char_T> &v = o[wstr<Char_T>(m.key)];
     switch (m.kind) {
         case 0: v = SizeT64I(m.i); break;
         case 8: v = SizeT64(m.i); break;
-        case 1: v = m.s.c_str(); break;
+        case 1: v = wstr<Char_T>(m.s); break;
         case 2: v = true; break;
         case 3: v = false; break;
         case 4: v = nullptr; break;
@@ -131,7 +151,7 @@ void put_member(Value<char> &o, const Member &m) {
             v += 1;
             v += 2;
             break;
-        default: v["z"] = 1; break;
+        default: v[wstr<Char_T>("z")] = 1; break;
     }
 }
 
@@ -141,16 +161,17 @@ struct Scenario {
     bool             key_position_varies{false};
 };
 
-Scenario make_scenario(const Case &c, Value<char> &arr) {
+template <typename Char_T>
+Scenario make_scenario(const Case &c, Value<Char_T> &arr) {
     Entropy  e(c.bytes);
     Scenario sc;
     unsigned n = e.below(13);
-    arr        = Value<char>{ValueType::Array};
+    arr        = Value<Char_T>{ValueType::Array};
     size_t first_pos = size_t(-1);
     unsigned twin_counter = 0;
     for (unsigned i = 0; i < n; ++i) {
         Obj         o;
-        Value<char> v{ValueType::Object};
+        Value<Char_T> v{ValueType::Object};
         // plan: other members (distinct keys), the group key at a random position, an id, optional removed members
         static const char *names[] = {"m", "n", "p", "q", "y"};
         unsigned           others   = e.below(5);
@@ -188,7 +209,7 @@ Scenario make_scenario(const Case &c, Value<char> &arr) {
             for (size_t r = 0; r < rm_at.size(); ++r) {
                 if (rm_at[r] == k) {
                     std::string rk = "gone" + std::to_string(rcount++);
-                    v[rk.c_str()]  = 7;
+                    v[wstr<Char_T>(rk)] = 7;
                 }
             }
             if (k < plan.size()) {
@@ -198,7 +219,7 @@ Scenario make_scenario(const Case &c, Value<char> &arr) {
         }
         for (size_t r = 0; r < rcount; ++r) {
             std::string rk = "gone" + std::to_string(r);
-            v.Remove(rk.c_str());
+            { String<Char_T> rks = wstr<Char_T>(rk); v.Remove(rks); }
             sc.has_removed = true;
         }
         o.group_text = group_text_of(g);
@@ -229,10 +250,11 @@ struct H {
     static const char *name() { return "C18 group by"; }
     static rc::Gen<Case> gen() {
         using namespace rc;
-        return gen::map(gen::tuple(gen::resize(200, gen::container<std::vector<uint8_t>>(gen::arbitrary<uint8_t>())), pbt::pick<int>({0, 0, 1})),
-                        [](std::tuple<std::vector<uint8_t>, int> t) {
+        return gen::map(gen::tuple(gen::resize(200, gen::container<std::vector<uint8_t>>(gen::arbitrary<uint8_t>())), pbt::pick<int>({0, 0, 1}), pbt::pick<int>({1, 1, 2, 4})),
+                        [](std::tuple<std::vector<uint8_t>, int, int> t) {
                             Case c;
                             c.bytes = std::get<0>(t);
+                            c.width = std::get<2>(t);
                             c.twins = std::get<1>(t);
                             return c;
                         });
@@ -240,7 +262,9 @@ struct H {
     // coverage-guided mode: selector byte, then entropy
     static bool from_fuzz(const uint8_t *d, size_t n, Case &c) {
         pbt::FuzzBytes f(d, n);
-        c.twins = (f.sel() % 3) == 0;
+        const uint8_t sel = f.sel();
+        c.twins = (sel % 3) == 0;
+        c.width = ((sel >> 4) & 3) == 1 ? 2 : ((sel >> 4) & 3) == 2 ? 4 : 1;
         c.bytes = f.rest();
         return true;
     }
@@ -254,8 +278,9 @@ struct H {
         }
         kv.put("bytes", hex);
         kv.put("twins", c.twins);
+        kv.put("width", c.width);
         Value<char> arr;
-        make_scenario(c, arr);
+        make_scenario<char>(c, arr);
         String<char> s = arr.Stringify();
         kv.put("array", pbt::enc_bytes(std::string(s.First() ? s.First() : "", s.Length())));
         return kv.text();
@@ -268,15 +293,26 @@ struct H {
             c.bytes.push_back(uint8_t(strtoul(hex.substr(i, 2).c_str(), nullptr, 16)));
         }
         c.twins = int(kv.geti("twins", 0));
+        c.width = int(kv.geti("width", 1));
         return c;
     }
 
     static void run(const Case &c, pbt::Ctx &ctx) {
-        Value<char> root;
-        Value<char> arr;
-        Scenario    sc = make_scenario(c, arr);
-        root["arr"]    = Memory::Move(arr);
-        const Value<char> &src = *root.GetValue("arr", 3);
+        ctx.label("units:" + std::to_string(c.width) + "-byte");
+        switch (c.width) {
+            case 2: run_width<char16_t>(c, ctx); break;
+            case 4: run_width<char32_t>(c, ctx); break;
+            default: run_width<char>(c, ctx); break;
+        }
+    }
+    template <typename Char_T>
+    static void run_width(const Case &c, pbt::Ctx &ctx) {
+        Value<Char_T> root;
+        Value<Char_T> arr;
+        Scenario      sc = make_scenario<Char_T>(c, arr);
+        root[wstr<Char_T>("arr")] = Memory::Move(arr);
+        const String<Char_T> arr_key = wstr<Char_T>("arr");
+        const Value<Char_T> &src     = *root.GetValue(arr_key.First(), arr_key.Length());
         if (sc.objs.size() >= 2) {
             ctx.nontrivial();
         }
@@ -318,10 +354,10 @@ struct H {
         }
         expect += "}";
 
-        auto text_of = [](const Value<char> &v) {
-            StringStream<char> ss;
+        auto text_of = [](const Value<Char_T> &v) {
+            StringStream<Char_T> ss;
             v.Stringify(ss, 15U);
-            return std::string(ss.First() ? ss.First() : "", ss.Length());
+            return narrow(ss.First(), ss.Length());
         };
         const std::string before = text_of(root);
 
@@ -335,7 +371,7 @@ struct H {
             return base;
         };
 
-        Value<char> grouped;
+        Value<Char_T> grouped;
         // what the destination holds before the call must not show in the result: nothing, an earlier grouping of the same array by
         // another key, an array, a string, a number, an object (chosen by the case bytes; the first render of every case is into a
         // fresh destination through the template path below)
@@ -345,18 +381,20 @@ struct H {
                 pre = pre * 31 + x;
             }
             switch (pre % 7) {
-                case 1: (void)src.GroupBy(grouped, "id"); break;
-                case 2: (void)src.GroupBy(grouped, kGroupKey); break;
-                case 3: grouped += 1; grouped += "two"; break;
-                case 4: grouped = "a string that owns its storage, longer than any inline buffer"; break;
+                case 1: { String<Char_T> k_ = wstr<Char_T>("id"); (void)src.GroupBy(grouped, k_.First(), k_.Length()); } break;
+                case 2: { String<Char_T> k_ = wstr<Char_T>(kGroupKey); (void)src.GroupBy(grouped, k_.First(), k_.Length()); } break;
+                case 3: grouped += 1; grouped += wstr<Char_T>("two"); break;
+                case 4: grouped = wstr<Char_T>("a string that owns its storage, longer than any inline buffer"); break;
                 case 5: grouped = 12.5; break;
-                case 6: grouped["old"] = 1; grouped["g"] = nullptr; break;
+                case 6: grouped[wstr<Char_T>("old")] = 1; grouped[wstr<Char_T>("g")] = nullptr; break;
                 default: break;
             }
             static const char *pn[] = {"fresh", "earlier-grouping-other-key", "earlier-grouping-same-key", "array", "string", "number", "object"};
             ctx.label(std::string("destination:") + pn[pre % 7]);
         }
-        bool        ok = src.GroupBy(grouped, kGroupKey);
+        const String<Char_T> gk_ = wstr<Char_T>(kGroupKey);
+        // (the NUL-terminated overload and the (pointer, length) overload in turn)
+        bool        ok = (c.bytes.size() & 1) ? src.GroupBy(grouped, gk_.First()) : src.GroupBy(grouped, gk_.First(), gk_.Length());
         if (sc.objs.empty()) {
             // nothing to group: either outcome with an empty object is a partition of nothing
             if (ok && grouped.Size() != 0) {
@@ -390,10 +428,10 @@ struct H {
             want += "]";
         }
         jm::Units          tu(tpl.begin(), tpl.end());
-        jm::Buf<char>      tb(tu);
-        StringStream<char> out;
+        jm::Buf<Char_T>      tb(tu);
+        StringStream<Char_T> out;
         Template::Render(tb.cp(), SizeT(tb.n), root, out);
-        std::string got(out.First() ? out.First() : "", out.Length());
+        std::string got = narrow(out.First(), out.Length());
         if (got != want) {
             ctx.deviation(classify("loop-group-differs"), "<loop group> rendered '" + got + "' expected '" + want + "' for " + before);
         }
